@@ -1,6 +1,6 @@
 use crate::{
     emulator::Emulator,
-    error::IoError,
+    error::{IoError, SnapshotLoadError},
     host::{DataRecorder, Host, LoadableAsset, SeekFrom, SeekableAsset},
     zx::{machine::ZXMachine, video::colors::ZXColor},
     Result,
@@ -34,6 +34,11 @@ where
 
     if !is_128k && size < SNA_48K_SIZE {
         return Err(IoError::UnexpectedEof.into());
+    }
+
+    // 48K and 128K snapshots have different memory layouts and can't be applied to the other model
+    if is_128k != (emulator.settings.machine == ZXMachine::Sinclair128K) {
+        return Err(SnapshotLoadError::MachineNotSupported.into());
     }
 
     let mut header = [0u8; SNA_HEADER_SIZE];
